@@ -544,12 +544,9 @@ theorem MaskedImage_from_vector_some (x : Img) (v : Vec) (k : Nat) (hx : x.cls =
   simp only [Img.nPix] at hm
   unfold maskedFromVectorN
   simp only [Img.nPix]
-  by_cases ht : allTrue m = true
-  · -- all-true mask
-    by_cases hl : v.length = k * prod sh <;>
-      simp [Src.MaskedImage_from_vector, Src.Image_shape, ht, Np.reshapeImg, Np.ToFlat.toFlat, hl, copy_landmarks_eq,
-        Np.mkMasked]
-  · by_cases hk : k = 0
+  cases ht : allTrue m
+  · -- a partial mask: zeros, reshape to (k, -1), assign under the mask
+    by_cases hk : k = 0
     · simp [Src.MaskedImage_from_vector, ht, Np.reshapeRows, hk]
     · by_cases hmod : v.length % k = 0
       · have hw : ((chunks (v.length / k) k v).headD []).length = v.length / k :=
@@ -564,9 +561,9 @@ theorem MaskedImage_from_vector_some (x : Img) (v : Vec) (k : Nat) (hx : x.cls =
           exact overlay_zeros m r
         have hb : (broadcastRows (countTrue m) (chunks (v.length / k) k v)).length = k := by
           simp [broadcastRows, hlen]
-        simp only [Src.MaskedImage_from_vector, Src.Image_shape, Option.getD_some, ht, Bool.not_false, Bool.not_true,
-          if_true, if_false, Bool.false_eq_true, Np.reshapeRows, hk, hmod, ne_eq, not_true_eq_false, Np.assignMasked,
-          Np.zerosImg, hw]
+        simp only [Src.MaskedImage_from_vector, Src.Image_shape, Option.getD_some, Np.mask_img, Np.mask_raster, ht,
+          Bool.not_false, Bool.not_true, Bool.false_eq_true, ↓reduceIte, Np.reshapeRows, hk, hmod, ne_eq,
+          not_true_eq_false, Np.assignMasked, Np.zerosImg, hw]
         by_cases h1 : v.length / k = countTrue m
         · simp only [if_pos h1, hz _ hlen]
           simp [copy_landmarks_eq, Np.mkMasked]
@@ -575,6 +572,10 @@ theorem MaskedImage_from_vector_some (x : Img) (v : Vec) (k : Nat) (hx : x.cls =
             simp [copy_landmarks_eq, Np.mkMasked, broadcastRows]
           · simp only [if_neg h1, if_neg h2]
       · simp [Src.MaskedImage_from_vector, ht, Np.reshapeRows, hk, hmod]
+  · -- all-true mask: a reshape
+    by_cases hl : v.length = k * prod sh <;>
+      simp [Src.MaskedImage_from_vector, Src.Image_shape, ht, Np.reshapeImg, Np.ToFlat.toFlat, hl, copy_landmarks_eq,
+        Np.mkMasked]
 
 theorem MaskedImage_from_vector_none (x : Img) (v : Vec) :
     Src.MaskedImage_from_vector x v none = Src.MaskedImage_from_vector x v (some x.nCh) := rfl
